@@ -39,6 +39,30 @@ def build(profile="functional"):
     f = mp.fn("iterate_with_lines")
     f.ret("ret")
     f.props_safety = ["C13"]
+    # R5 / R11: the three statements that compute the answer for ONE entry (line rule, file rule, class rule) are verified as a region function of their
+    # own and called in place. Reason (found by the automatic mutation sweep): inside the loop, with the quantified invariant in the context, Z3 does not
+    # terminate on ANY wrong variant of these statements (a changed comparison in the line rule ran for > 15 min), so a broken tree was `undecided` instead of
+    # a violation. In the region's quantifier-free context a wrong variant fails within a second.
+    import re
+    from vf.unit import Fragment, AnchorLost
+    m_line = re.search(r"let line = if", f.orig)
+    m_class = re.search(r"let class = match", f.orig)
+    if not m_line or not m_class or m_class.start() < m_line.start():
+        raise AnchorLost("iterate_with_lines: the statements `let line = if ..` .. `let class = match ..;` not found")
+    ra, rb = m_line.start(), f.stmt_extent(m_class.start())[1]
+    rg = Fragment(u, f.file, mp.src, f.start + ra, f.start + rb, "region", "entry-out")
+    rg.qualname = "%s[entry-out]" % f.qualname
+    rg.contracted = True
+    rg.props_all = ["C01", "C02"] if fun else ["C13"]
+    rg.props_safety = ["C13"]
+    RG_CONTRACT = """        requires entry_in_domain(abs_mm(*member)), frame.line < 0xffff_ffff, applies(abs_mm(*member), frame.line as int),
+        ensures /*@L:answer_for_one_entry_is_entry_out:C01,C02*/
+            aframe(StackFrame { class: ret.2, method: member.original, file: ret.1, line: ret.0, parameters: frame.parameters }) == entry_out(abs_mm(*member), aframe(*frame)),
+""" if fun else ""
+    u.emit(rg, prefix="fn region_entry_out<'a>(frame: &StackFrame<'a>, member: &MemberMapping<'a>) -> (ret: (usize, Option<&'a str>, &'a str))\n" + RG_CONTRACT + "{\n        ",
+           suffix="\n        (line, file, class)\n}\n")
+    f.replace_span(ra, rb, "let (line, file, class) = region_entry_out(&*frame, member);", "R11",
+                   "the statements that compute the answer for one entry => call of the region function generated from this very text")
     if fun:
         f.props_all = ["C01", "C02"]
         f.contract("""    requires
